@@ -288,7 +288,8 @@ class Check:
                 raise RuntimeError("harness %s wrote no statistics\n%s" % (label, r["output"][-2000:]))
             return
         if rc == "timeout":
-            self.inconclusive.append("%s shard %d hit the wall-clock cap (inconclusive, not a violation)" % (label, s))
+            self.inconclusive.append("%s shard %d hit the wall-clock cap after %d evaluations (inconclusive, not a violation; "
+                                     "its partial statistics are counted)" % (label, s, (stats or {}).get("evaluations", 0)))
             return
         if rc == 2:
             raise RuntimeError("harness %s infrastructure error:\n%s" % (label, r["output"][-3000:]))
@@ -424,6 +425,9 @@ class Check:
             log("INCONCLUSIVE: " + n)
         if self.violations:
             return 1
+        if missing and self.inconclusive:
+            log("INCONCLUSIVE: some required case classes were not reached before the wall-clock cap: %s" % ", ".join(missing))
+            return 0
         if missing:
             log("INFRASTRUCTURE: required case classes were never generated: %s" % ", ".join(missing))
             return 2
